@@ -6,7 +6,8 @@ from . import common as C
 PROP = "C02"
 REQ = ("From RZ Require Import Base.Prelude Model.Codec Model.RouterMap Model.Envelope Model.FrameBatch Model.SendFlags "
        "Model.Ingress Corr.C03Corr Corr.C02Corr.")
-THEOREMS = ("C02_recv_contiguous, C02_recv_contiguous_addressed, C02_recv_multipart_only, C02_wire_is_one_message, "
+THEOREMS = ("C02_recv_contiguous, C02_recv_contiguous_until_close, C02_recv_contiguous_addressed, "
+            "C02_recv_multipart_only, C02_wire_is_one_message, "
             "C02_send_sound, C02_send_never_truncates, C02_wire_reassembled, C02_overlong_wire_refused, "
             "C02_frame_limit_*, C02_framebatch_*")
 
@@ -17,10 +18,7 @@ RECEIVER = {"push_pull": "PULL", "dealer_router": "ROUTER", "router_dealer": "DE
 SENDER = {"push_pull": "PUSH", "dealer_router": "DEALER", "router_dealer": "ROUTER", "dealer_dealer": "DEALER",
           "dealer_rep": "DEALER", "rep_req": "REP", "pub_sub": "PUB"}
 
-SIG_DEREG = "C02:deregister-clears-half-read-message"
-SIG_MIXED = "C02:recv-multipart-ignores-frame-recv-buffer"
 SIG_REQREP = "C02:reqrep-recv-first-frame-only"
-SIG_ROUTER_FLAGS = "C02:router-send-multipart-keeps-application-flags"
 SIG_SEND_PANIC = "C02:over-255-frames-panics-at-sender"
 SIG_ROUTER_RECV_PANIC = "C02:router-recv-255-frames-panics"
 SIG_INPROC_PANIC = "C02:inproc-256-parts-panics-reader-task"
@@ -141,7 +139,7 @@ def ing_fixed_cases():
     A = ing_frames(1, 3)
     B = ing_frames(2, 1)
     return [
-        # the DESIGN's suspicion: another pipe detaches while a message is half read
+        # repaired finding 1: another pipe detaches while a message is half read - the message must stay whole
         {"k": "ing", "wf": True, "ops": [{"o": "reg", "p": 1}, {"o": "reg", "p": 3}, {"o": "enq", "h": 0, "shape": 0, "f": A},
                                         {"o": "recv"}, {"o": "dereg", "p": 3}, {"o": "recv"},
                                         {"o": "enq", "h": 0, "shape": 0, "f": B}, {"o": "recv"}, {"o": "recvmp"}]},
@@ -514,11 +512,11 @@ def oracle_ing(c, rows):
             bid, idx, n = d
             if cur is None:
                 if idx != 0:
-                    return ("message %d starts at frame %d" % (bid, idx), SIG_DEREG if dropped_at else None)
+                    return ("message %d starts at frame %d" % (bid, idx), None)
             else:
                 if (bid, idx) != (cur[0], cur[1]):
                     return ("frame %d of message %d followed by frame %d of message %d: message %d was cut short" %
-                            (cur[1] - 1, cur[0], idx, bid, cur[0]), SIG_DEREG if dropped_at else None)
+                            (cur[1] - 1, cur[0], idx, bid, cur[0]), None)
             if more != (1 if idx < n - 1 else 0):
                 return ("wrong MORE flag", None)
             cur = (bid, idx + 1, n) if idx < n - 1 else None
@@ -658,13 +656,11 @@ def oracle_seq(c, o):
 
 
 def classify_seq(c, mid_mp, msg):
+    """the only tolerated (known) failure of these scenarios: REQ / REP recv() of a multi-frame payload.
+    Interleaving by a mid-message recv_multipart (DEALER/ROUTER) and un-normalised ROUTER flags were repaired."""
     pat = c["pattern"]
     if pat in ("dealer_rep", "rep_req") and "f" in c["script"] and any(len(m["sizes"]) > 1 for m in c["messages"]):
         return SIG_REQREP
-    if RECEIVER[pat] in ("ROUTER", "DEALER") and mid_mp:
-        return SIG_MIXED
-    if SENDER[pat] == "ROUTER" and any(m.get("flags") == "none" and len(m["sizes"]) > 1 for m in c["messages"]):
-        return SIG_ROUTER_FLAGS
     return None
 
 
@@ -723,11 +719,8 @@ def oracle_stack(c, o):
 
 
 def classify_stack(c, churn_half, mid_mp):
-    pat = c["pattern"]
-    if RECEIVER[pat] in ("PULL", "SUB") and churn_half and c["style"] in (0, 2):
-        return SIG_DEREG
-    if RECEIVER[pat] in ("ROUTER", "DEALER") and c["style"] == 2 and mid_mp:
-        return SIG_MIXED
+    """no delivery failure of these scenarios is tolerated any more (detach while half read and mixed receive
+    styles were repaired)"""
     return None
 
 
